@@ -1,8 +1,126 @@
 import MetadorModel.Py.DrvLib
-/-! Driver stub (to be filled in). -/
-open MetadorModel
+import MetadorModel.Model.Hashsums
+/-!
+Driver for the `dir_hashsums` model (C19).
 
-def step (s : Unit) : List String → Unit × String
+Strings (names, algorithm) are hex-encoded UTF-8 bytes, `-` = empty string. Relative and
+absolute paths are `/`-joined hex segments, `.` = empty path. Digests are sent as they are
+(`[0-9a-f]+`). SHA is not computed here: every `file`/`hashsum` line brings the digest of its
+content, collected into a table that serves as `hexdigest` of the `HashLib` parameter (an
+unknown content answers `?`).
+
+```
+tree                         forget entries, keep table          → .
+base <abs path>              resolved base directory             → .
+alg <name> <blocksize>       algorithm and `h.block_size`        → .
+file <path> <content> <digest>                                    → .
+sym <path> <resolved abs path> <content of final regular file | ~>  → .
+dir <path>                                                        → .
+build | rbuild | legacy      run the loop (given order / reversed / pinned code)
+                                                                  → ok <dict> | err <Class>
+chunks <n> <content>         chunk lengths of the read loop       → c <len>*
+hashsum <content> <digest>   `qualified_hashsum` with current alg → ok <hex str> | err <Class>
+relsym <resolved> <base>     `relative_to`                        → some <path> | none
+```
+-/
+open MetadorModel MetadorModel.Drv MetadorModel.Bytes MetadorModel.Hashsums
+
+def strOf (s : String) : Str := s.toList
+def hexS (s : Str) : String := if s.isEmpty then "-" else hex (s.map Char.toNat)
+
+def unhexS (s : String) : Option Str :=
+  if s == "-" then some [] else (unhex s.toList).map (fun l => l.map Char.ofNat)
+
+def unhexB (s : String) : Option Bytes :=
+  if s == "-" then some [] else (unhex s.toList).map (fun l => l.map (fun n => UInt8.ofNat n))
+
+def parsePath (s : String) : Option Path :=
+  if s == "." then some []
+  else (s.splitOn "/").mapM unhexS
+
+def showPath (p : Path) : String :=
+  if p.isEmpty then "." else "/".intercalate (p.map hexS)
+
+mutual
+def render : HT → String
+  | .leaf s => "s" ++ hexS s
+  | .node d => "{" ++ renderL d ++ "}"
+def renderL : List (Name × HT) → String
+  | [] => ""
+  | [(k, v)] => hexS k ++ ":" ++ render v
+  | (k, v) :: r => hexS k ++ ":" ++ render v ++ "," ++ renderL r
+end
+
+def showErr : Err → String
+  | .valueError => "err ValueError"
+  | .typeError => "err TypeError"
+
+structure St where
+  base : Path := []
+  alg : Str := Bytes.sha256
+  blk : Nat := 64
+  tbl : List ((Str × Bytes) × Str) := []
+  entries : List Entry := []   -- newest first
+
+/-- hash objects are `(alg, bytes seen so far)`; `hexdigest` looks the pair up -/
+def mkHL (s : St) : HashLib (Str × Bytes) where
+  new a := (a, [])
+  blockSize _ := s.blk
+  update st c := (st.1, st.2 ++ c)
+  hexdigest st :=
+    match s.tbl.find? (fun e => e.1 == st) with
+    | some e => e.2
+    | none => ['?']
+
+def showRes : Except Err HT → String
+  | .ok t => "ok " ++ render t
+  | .error e => showErr e
+
+def step (s : St) : List String → St × String
+  | ["tree"] => ({ s with entries := [] }, ".")
+  | ["base", p] =>
+    match parsePath p with
+    | some p => ({ s with base := p }, ".")
+    | none => (s, "bad-op")
+  | ["alg", a, n] =>
+    match unhexS a, n.toNat? with
+    | some a, some n => ({ s with alg := a, blk := n }, ".")
+    | _, _ => (s, "bad-op")
+  | ["file", p, c, d] =>
+    match parsePath p, unhexB c with
+    | some p, some c =>
+      ({ s with entries := ⟨p, .file c⟩ :: s.entries, tbl := ((s.alg, c), strOf d) :: s.tbl }, ".")
+    | _, _ => (s, "bad-op")
+  | ["sym", p, r, t] =>
+    match parsePath p, parsePath r, (if t == "~" then some none else (unhexB t).map some) with
+    | some p, some r, some t => ({ s with entries := ⟨p, .sym r t⟩ :: s.entries }, ".")
+    | _, _, _ => (s, "bad-op")
+  | ["dir", p] =>
+    match parsePath p with
+    | some p => ({ s with entries := ⟨p, .dir⟩ :: s.entries }, ".")
+    | none => (s, "bad-op")
+  | ["build"] => (s, showRes (dirHashsums (mkHL s) s.alg ⟨s.base, s.entries.reverse⟩))
+  | ["rbuild"] => (s, showRes (dirHashsums (mkHL s) s.alg ⟨s.base, s.entries⟩))
+  | ["legacy"] => (s, showRes (Legacy.dirHashsums (mkHL s) s.alg ⟨s.base, s.entries.reverse⟩))
+  | ["chunks", n, c] =>
+    match n.toNat?, unhexB c with
+    | some n, some c => (s, " ".intercalate ("c" :: (chunks n c).map (fun x => toString x.length)))
+    | _, _ => (s, "bad-op")
+  | ["hashsum", c, d] =>
+    match unhexB c with
+    | some c =>
+      let s' := { s with tbl := ((s.alg, c), strOf d) :: s.tbl }
+      (s', match qualifiedHashsum (mkHL s') c s.alg with
+           | .ok h => "ok " ++ hexS h
+           | .error e => showErr e)
+    | none => (s, "bad-op")
+  | ["relsym", r, b] =>
+    match parsePath r, parsePath b with
+    | some r, some b =>
+      (s, match relativeTo r b with
+          | some p => "some " ++ showPath p
+          | none => "none")
+    | _, _ => (s, "bad-op")
   | _ => (s, "bad-op")
 
-def main : IO Unit := Drv.run () step
+def main : IO Unit := Drv.run ({} : St) step
